@@ -320,13 +320,11 @@ func idxAlphabet(kind int) []Op {
 				a = append(a, Op{K: "c", N: id, Keys: [][2]int{{0, k}}})
 			}
 		default:
-			for k := 0; k < 2; k++ {
-				for k2 := 0; k2 < 2; k2++ {
-					a = append(a, Op{K: "c", N: id, Keys: [][2]int{{0, k}, {1, k2}}})
-					if kind != 3 {
-						a = append(a, Op{K: "u", N: id, Keys: [][2]int{{0, k}, {1, k2}}})
-					}
-				}
+			for _, ks := range [][2]int{{0, 0}, {1, 1}, {0, 1}} {
+				a = append(a, Op{K: "c", N: id, Keys: [][2]int{{0, ks[0]}, {1, ks[1]}}})
+			}
+			if kind != 3 {
+				a = append(a, Op{K: "u", N: id, Keys: [][2]int{{0, 1}, {1, 0}}}, Op{K: "u", N: id, Keys: [][2]int{{0, 0}, {1, 0}}})
 			}
 		}
 		a = append(a, Op{K: "d", N: id})
@@ -508,6 +506,9 @@ func genStreams(r *vh.Rng, thorough bool) []stream {
 	for kind := 0; kind < 6; kind++ {
 		base := Case{Comp: "idx", Cfg: []int{kind}, Ops: nil}
 		dd := depth - 1
+		if kind < 4 {
+			dd = depth - 2
+		}
 		cs, ex := explore(base, idxAlphabet(kind), dd, capCases/2)
 		ex["store"] = names[kind]
 		add(fmt.Sprintf("idx%d_ex", kind), "idx", cs, ex)
